@@ -72,7 +72,11 @@ fn produce(c: &Case) -> Result<String, String> {
     match c.producer {
         Producer::DryocStr => crypto_pwhash_str(&c.password, c.ops, c.mem).map_err(|e| format!("crypto_pwhash_str: {e:?}")),
         Producer::DryocObject => {
-            let cfg = Config::interactive().with_opslimit(c.ops).with_memlimit(c.mem).with_salt_length(c.salt_len).with_hash_length(c.hash_len);
+            let cfg = match (c.salt_len + c.hash_len) % 3 {
+                0 => Config::interactive().with_opslimit(c.ops).with_memlimit(c.mem).with_salt_length(c.salt_len).with_hash_length(c.hash_len),
+                1 => Config::moderate().with_hash_length(c.hash_len).with_salt_length(c.salt_len).with_memlimit(c.mem).with_opslimit(c.ops),
+                _ => Config::sensitive().with_memlimit(c.mem).with_hash_length(c.hash_len).with_opslimit(c.ops).with_salt_length(c.salt_len),
+            };
             let h = PwHash::<Vec<u8>, Vec<u8>>::hash(&c.password.0, cfg).map_err(|e| format!("PwHash::hash: {e:?}"))?;
             Ok(h.to_string())
         }
@@ -203,7 +207,53 @@ pub fn case_strat() -> impl Strategy<Value = Case> {
     )
 }
 
+/// Valid strings whose cost fields are edited to LARGE in-range values. Nothing is hashed: parsing, re-encoding
+/// and needs-rehash must still be exact (and must not overflow) for every cost a string may carry.
+pub fn check_edited_costs(base: &str, m: u64, t: u64) -> Result<(), String> {
+    let p = parse(base)?;
+    let s = base.replacen(&format!("m={},t={}", p.m, p.t), &format!("m={m},t={t}"), 1);
+    let obj = no_panic(|| PwHash::<Vec<u8>, Vec<u8>>::from_string(&s)).map_err(|e| format!("PwHash::from_string panicked on {s}: {e}"))?.map_err(|e| format!("PwHash::from_string rejects a well-formed string with m={m},t={t}: {e:?}"))?;
+    let re = no_panic(|| obj.to_string()).map_err(|e| format!("to_string panicked: {e}"))?;
+    if re != s {
+        return Err(format!("from_string(s).to_string() != s for large costs:\n   s = {s}\n  re = {re}"));
+    }
+    let mem = (m as usize) * 1024;
+    for (ops, memq, want) in [(t, mem, false), (t, mem + 1023, false), (t.wrapping_add(1).max(1), mem, true), (t, mem - 1024, true), (t, mem - 1, true)] {
+        if ops > 4294967295 || memq > 4398046510080 + 1023 {
+            continue;
+        }
+        let got = no_panic(|| crypto_pwhash_str_needs_rehash(&s, ops, memq)).map_err(|e| format!("needs_rehash panicked on {s}: {e}"))?.map_err(|e| format!("needs_rehash errored on a well-formed string: {e:?}"))?;
+        if s.len() < 128 {
+            let r = sodium::pwhash_str_needs_rehash(&s, ops, memq);
+            if r < 0 || (r == 1) != want {
+                return Err(format!("harness: libsodium needs_rehash({s}, {ops}, {memq}) = {r}, expected {want}"));
+            }
+        }
+        if got != want {
+            return Err(format!("crypto_pwhash_str_needs_rehash({s}, ops={ops}, mem={memq}) = {got}, expected {want}"));
+        }
+    }
+    Ok(())
+}
+
 pub fn run(ctx: &mut Ctx) -> Result<(), Violation> {
+    {
+        let bases = [
+            sodium::pwhash_str(b"pw", 1, 8192, sodium::ALG_ARGON2ID13).unwrap_or_default(),
+            sodium::pwhash_str(b"pw", 3, 8192, sodium::ALG_ARGON2I13).unwrap_or_default(),
+            sodium::argon2_encoded(sodium::ALG_ARGON2ID13, 2, 9, b"pw", &[3u8; 9], 20).unwrap_or_default(),
+        ];
+        for b in &bases {
+            for m in [65u64, 1 << 20, (1 << 22) - 1, 1 << 22, (1 << 22) + 1, 1 << 31, (1 << 32) - 2, (1 << 32) - 1] {
+                for t in [1u64, 7, (1 << 31) + 1, (1 << 32) - 1] {
+                    ctx.ev.eval(1);
+                    ctx.ev.class("edited large costs: parse / re-encode / needs-rehash only");
+                    ctx.ev.nontrivial(fnv64(&[b.as_bytes(), &m.to_le_bytes(), &t.to_le_bytes()]));
+                    check_edited_costs(b, m, t).map_err(|msg| Violation::new("C10", "pwhash-edited-costs", msg, json!({"base": b, "m": m, "t": t})))?;
+                }
+            }
+        }
+    }
     ctx.rule = "proptest cases (with shrinking): password 0..=128 bytes, t 1..=4, memlimit 8..=64 KiB incl. values that are not a multiple of 1024, producer in {dryoc crypto_pwhash_str, dryoc PwHash::hash(config with salt 8..=64, hash 16..=128).to_string(), libsodium crypto_pwhash_str (argon2id), libsodium crypto_pwhash_str_alg (argon2i), libsodium internal argon2{i,id}_hash_encoded (salt 8..=64, hash 16..=128)}, 1..4 needs-rehash queries each (equal costs, memlimit within the same KiB, t differs only, m differs only, one byte below the KiB, unrelated). Oracle: (a) strict harness parser decodes the string, fields equal the costs/lengths used, and Argon2 recomputed by the reference from exactly those fields equals the hash field; (b) libsodium crypto_pwhash_str_verify / argon2_verify accept the right password and reject wrong ones, dryoc crypto_pwhash_str_verify and PwHash::from_string(..).verify likewise; (c) from_string(s).to_string() == s; (d) needs_rehash == (ops != t or mem/1024 != m) == libsodium's answer. Non-trivial: string from libsodium, or Argon2i, or non-default salt/hash length, or a query where exactly one cost differs; distinct = hash(case).".into();
     ctx.assumptions = vec!["libsodium's encoder/verifier (public and internal) is the interop reference".into(), "cost parameters kept small (m <= 64 KiB, t <= 4)".into()];
     let seed = ctx.seed;
@@ -233,6 +283,9 @@ pub fn run(ctx: &mut Ctx) -> Result<(), Violation> {
 }
 
 pub fn replay(v: &Violation) -> Result<(), String> {
+    if v.kind == "pwhash-edited-costs" {
+        return check_edited_costs(v.case["base"].as_str().unwrap_or(""), v.case["m"].as_u64().unwrap_or(8), v.case["t"].as_u64().unwrap_or(1));
+    }
     let c: Case = from_case(&v.case)?;
     check(&c)
 }
